@@ -464,7 +464,7 @@ func c13(c *core.Ctx) {
 		crit := k.Index%2 == 1
 		reps := 3
 		if k.Thorough() {
-			reps = 40
+			reps = 300
 		}
 		for rep := 0; rep < reps; rep++ {
 			base := gen.Msg(k.R, gen.Opt{MaxPayloads: 4, AllowEmpty: rep%5 == 4})
@@ -479,7 +479,7 @@ func c13(c *core.Ctx) {
 			}
 		}
 	})
-	c.Family("multiple", c.N(30000, 1500000), func(k *core.Case) {
+	c.Family("multiple", c.N(30000, 12000000), func(k *core.Case) {
 		base := gen.Msg(k.R, gen.Opt{MaxPayloads: 5, AllowEmpty: true})
 		n := 2 + k.R.Intn(4)
 		var ins []abs.Payload
@@ -500,7 +500,7 @@ func c13(c *core.Ctx) {
 		}
 		c13One(k, base, ins, pos, &ref.Opts{Noise: k.R.Byte, CritKnown: k.R.Bool}, "multiple")
 	})
-	c.Family("critical-on-implemented", c.N(12000, 500000), func(k *core.Case) {
+	c.Family("critical-on-implemented", c.N(12000, 3000000), func(k *core.Case) {
 		base := gen.Msg(k.R, gen.Opt{MaxPayloads: 5})
 		c13One(k, base, nil, nil, &ref.Opts{CritKnown: func() bool { return true }}, "critical-on-implemented")
 		k.Count("critical_on_implemented", 1)
